@@ -514,6 +514,10 @@ func (e *Evaluator) makeArray(
 	if t.IsTargetIdentifier("[") {
 		isParentheses = true
 		p.SkipNewline()
+
+		// the first element starts afresh, like the ones after a comma: a `[` right
+		// behind the opening one is a nested literal, not an index on an earlier value
+		p.SetLastEvaluatedT(base.MakeNil())
 	}
 
 	if !isParentheses {
